@@ -44,7 +44,7 @@ def implicit_trapezoid(dae: nDAE,
     if opt is None:
         opt = Opt(stats=True)
     dt = opt.step_size
-    tspan = np.array(tspan)
+    tspan = np.array(tspan, dtype=np.float64)
     T_initial = tspan[0]
     T_end = tspan[-1]
     nt = 0
@@ -82,8 +82,9 @@ def implicit_trapezoid(dae: nDAE,
             broke = True
             break
 
-        tt = tt + dt
         nt = nt + 1
+        # the grid is T_initial + nt * dt: no rounding accumulates over the steps
+        tt = T_initial + nt * dt
         Y[nt] = y1
         T[nt] = tt
         if opt.pbar:
